@@ -107,7 +107,8 @@ def mono_task(sign, jlist):
             obls.append(o); lem[(cst, w)] = True
         # ---- no panic / no wrap in any stage, for every tick of this sign
         for k, ev in enumerate([ev for ev in p_all.trace if ev[1] in ('nopanic', 'nowrap')]):
-            o = M.Obligation(f'mono:{"pos" if sign > 0 else "neg"}:no_{ev[1][2:]}:{k}', p_all.pc, ev[3], note=ev[2]); o.replay = None
+            o = M.Obligation(f'mono:{"pos" if sign > 0 else "neg"}:no_{ev[1][2:]}:{k}', p_all.pc, ev[3], note=ev[2])
+            o.replay = dict(custom=panic_replay(sign, syms))
             obls.append(o)
         # ---- chain queries
         for j in jlist:
@@ -164,6 +165,28 @@ def mono_replay(sign, j, sy):
     return custom
 
 
+def panic_replay(sign, syms):
+    def custom(env):
+        from vlib import replay_m
+        m = sum((1 << k) for k, v in syms.items() if env.get(v[1]))
+        t = m if sign > 0 else -m
+        for prof in ('debug', 'release'):
+            out = replay_m.native('sqrt_price_from_tick_index', [t], prof)
+            if out == 'Panic': return 'violates', f'{prof}: sqrt_price_from_tick_index({t}) panics (intermediate product does not fit)'
+        return 'holds', f'sqrt_price_from_tick_index({t}) = {out}'
+    return custom
+
+
+def endpoint_replay(t, expect, rel):
+    def custom(env):
+        from vlib import replay_m
+        out = replay_m.native('sqrt_price_from_tick_index', [t])
+        v = int(out.split()[1]) if out and out.startswith('Ok') else None
+        ok = v is not None and ((rel == '=' and v == expect) or (rel == '<' and v < expect))
+        return ('holds' if ok else 'violates'), f'sqrt_price_from_tick_index({t}) = {out}, required {rel} {expect}'
+    return custom
+
+
 def endpoints_task(ctx):
     """p(MIN_TICK), p(MAX_TICK) equal the published constants; p(-1) < p(0) (the seam between the two chains); twin"""
     T.reset()
@@ -176,10 +199,14 @@ def endpoints_task(ctx):
         outs = [(p, r) for p, r in run_price(e, C(t), []) if not isinstance(r, Panic)]
         vals[t] = outs[0][1].t
     obls = []
-    for key, goal in (('p(MIN_TICK)=MIN_SQRT_PRICE', T.cmp('=', vals[MIN_TICK], C(minp))), ('p(MAX_TICK)=MAX_SQRT_PRICE', T.cmp('=', vals[MAX_TICK], C(maxp))),
-                      ('seam:p(-1)<p(0)', T.cmp('<', vals[-1], vals[0])), ('seam:p(0)<p(1)', T.cmp('<', vals[0], vals[1])),
-                      ('p(0)=2^64', T.cmp('=', vals[0], C(1 << 64)))):
-        o = M.Obligation('endpoints:' + key, [], goal); o.replay = None; o.nontrivial = True
+    def cval(t):
+        return vals[t][1] if T.is_c(vals[t]) else None
+    for key, goal, rp in (('p(MIN_TICK)=MIN_SQRT_PRICE', T.cmp('=', vals[MIN_TICK], C(minp)), endpoint_replay(MIN_TICK, minp, '=')),
+                          ('p(MAX_TICK)=MAX_SQRT_PRICE', T.cmp('=', vals[MAX_TICK], C(maxp)), endpoint_replay(MAX_TICK, maxp, '=')),
+                          ('seam:p(-1)<p(0)', T.cmp('<', vals[-1], vals[0]), endpoint_replay(-1, cval(0) or (1 << 64), '<')),
+                          ('seam:p(0)<p(1)', T.cmp('<', vals[0], vals[1]), endpoint_replay(0, cval(1) or 0, '<')),
+                          ('p(0)=2^64', T.cmp('=', vals[0], C(1 << 64)), endpoint_replay(0, 1 << 64, '='))):
+        o = M.Obligation('endpoints:' + key, [], goal); o.replay = dict(custom=rp); o.nontrivial = True
         obls.append(o)
     ctx.functions.update(e.executed)
     ctx.discharge(obls)
